@@ -8,7 +8,7 @@ import hypothesis
 from hypothesis import strategies as st, settings, HealthCheck, Phase
 from hypothesis.stateful import RuleBasedStateMachine, rule, invariant, precondition, run_state_machine_as_test
 
-from .. import repo, core, purity as P, zygote
+from .. import repo, core, purity as P, zygote, sched
 from ..core import SubCheck, Fail, Discard, HarnessError, Stats, jsonable
 
 RULE = ("histories of 1..50 calls drawn from ~60 public-API entry points (conversions incl. date helpers and module-level angle "
@@ -23,8 +23,10 @@ ASSUMPTIONS = ["write barrier: __setattr__ of Ellipsoid / Projection / Transform
                "counted as 'benign rewrite', not reported",
                "history-free reference: every call is also evaluated in a forked child of a fresh interpreter that has made no "
                "library call (gvp/zygote.py); the in-history result must be bit-identical to it",
-               "the harness does not own the thread schedule: the concurrency clause is decided by 'no write to shared state at all' "
-               "(barrier + snapshot) and corroborated by the threaded re-runs",
+               "concurrency: decided by 'no write to shared state at all' (barrier + snapshot), by free-running threaded re-runs (the "
+               "harness does not own that schedule: corroboration) and by the owned_schedules sub-checks, where the harness does own "
+               "the schedule at the granularity of the library's source lines (sys.monitoring, CPython >= 3.12; a race inside one "
+               "source line, or inside C code, is not reachable)",
                "bit patterns: float.hex, ndarray.tobytes, recursively through tuples and objects"]
 
 _Z = []
@@ -314,6 +316,120 @@ def run_machine(sc, n, seed, tier):
     return stats, failures, harness
 
 
+# ------------------------------------------------------------------------------------------------ owned schedules
+
+def _res(raw_or_exc):
+    kind, v = raw_or_exc
+    if kind == "ok":
+        return ["ok", P.canon(v)]
+    return ["exc", type(v).__name__, str(v)[:200]]
+
+
+def _plans(lines, budget, phase):
+    """Schedules for calls whose solo runs take lines[i] library lines: (rotation, quanta, label)."""
+    n = len(lines)
+    out = [(0, [q], "alternate/%d" % q) for q in (1, 2, 3, 7)]
+    per = max(4, (budget - len(out)) // n)
+    for r in range(n):                       # every call takes the role of the pre-empted one
+        m = lines[r]
+        if m <= 0:
+            continue
+        stride = max(1, -(-m // per))
+        ks = list(range((phase % stride), m, stride))
+        out += [(r, [k, sched.INF], "preempt-once") for k in ks]
+        # two pre-emptions: the first call is stopped at k, the second at k2 of its own lines, then the first finishes
+        m2 = lines[(r + 1) % n]
+        if m2 > 1 and ks:
+            for j, k in enumerate(ks[:: max(1, len(ks) // 6)]):
+                out.append((r, [k, 1 + (phase + 7 * j) % max(1, m2 - 1), sched.INF], "preempt-twice"))
+    return out
+
+
+def check_schedules(case):
+    """case = {"calls": [call, call(, call)]}: the calls run concurrently under every plan of _plans(); each must return what it
+    returns in a process that has made no other call, and the constants / arguments invariants must hold."""
+    if not sched.available():
+        raise Discard()
+    budget = int(case.get("budget", 60))
+    ex = Executor()
+    try:
+        calls = case["calls"]
+        want = []
+        built = []
+        for c in calls:
+            try:
+                built.append(P.build_args(c))
+            except Discard:
+                raise Discard()
+            want.append(_Z[0].ask(c))
+        lines = []
+        for (fn, args), w, c in zip(built, want, calls):
+            n, r = sched.count_lines(lambda fn=fn, args=args: fn(*args))
+            lines.append(n)
+            if _res(r) != w:
+                raise Fail("%s returned a result that differs from a fresh process" % c["fn"], expected={"fresh_process": w},
+                           observed={"here": _res(r)}, bucket="history dependent " + c["fn"])
+        core.metric("library lines per call", max(lines))
+        plans = _plans(lines, budget, core.case_hash(case) % 9973)
+        if sum(lines) + 4 <= budget:
+            core.metric("cases with every single pre-emption point", 1)
+        core.metric("schedules per case", len(plans))
+        nsw = 0
+        for rot, quanta, label in plans:
+            order = list(range(rot, len(calls))) + list(range(rot))
+            fresh = [P.build_args(calls[i]) for i in order]
+            watched = [ex._watch(a) for _, a in fresh]
+            P.BARRIER.log[:] = []
+            try:
+                results, info = sched.run([(lambda fn=fn, args=args: fn(*args)) for fn, args in fresh], quanta)
+            except sched.Stuck:
+                core.metric("schedules abandoned", 1)
+                continue
+            nsw += info["switches"]
+            plan = {"order": order, "quanta": [q if q < sched.INF else "rest" for q in quanta], "kind": label}
+            for pos, i in enumerate(order):
+                g = _res(results[pos])
+                if g != want[i]:
+                    raise Fail("%s returned a different result when interleaved with %s at library-line granularity"
+                               % (calls[i]["fn"], ", ".join(calls[j]["fn"] for j in order if j != i)),
+                               expected=want[i], observed={"result": g, "schedule": plan}, bucket="not thread safe " + calls[i]["fn"])
+                for k, a, before in watched[pos]:
+                    if P.canon(a) != before:
+                        raise Fail("%s modified an argument supplied by the caller (interleaved run)" % calls[i]["fn"], expected=before,
+                                   observed={"arg": k, "after": P.canon(a), "schedule": plan}, bucket="argument mutated by " + calls[i]["fn"])
+            if P.BARRIER.log:
+                w = P.BARRIER.log[0]
+                raise Fail("a shipped constant (%s.%s) was written during an interleaved run" % (w[0], w[1]),
+                           observed={"write": w, "schedule": plan}, bucket="constant written (schedules)")
+            d = P.snapshot_diff()
+            if d:
+                raise Fail("a module-level constant changed during an interleaved run", observed={"diff": d[:3], "schedule": plan},
+                           bucket="constant changed (schedules)")
+        core.metric("thread switches per case", nsw)
+    finally:
+        P.restore_constants()
+        P.BARRIER.log[:] = []
+
+
+def _schedule_cases(budget):
+    fam = P.call_strategy(families=True).map(lambda cs: list(cs)[:3])
+    one = P.call_strategy()
+    pair = st.tuples(one, one).map(list)
+    twice = one.map(lambda c: [c, copy.deepcopy(c)])
+    return st.one_of(fam, fam, pair, twice).filter(lambda cs: len(cs) >= 2).map(lambda cs: {"calls": cs, "budget": budget})
+
+
+def _classes_sched(case):
+    cs = case["calls"]
+    out = ["threads:%d" % len(cs)]
+    names = sorted({c["fn"] for c in cs})
+    out.append("same entry point" if len(names) == 1 else "different entry points")
+    if all(repr(jsonable(c)) == repr(jsonable(cs[0])) for c in cs):
+        out.append("identical calls")
+    out += ["fn:" + n for n in names]
+    return out
+
+
 SUBCHECKS = [
     SubCheck("state_machine", check_history, strategy=None, nontrivial=_nt, classes=_classes, quick=60, thorough=3000,
              shards_quick=12, shards_thorough=48, setup=_setup,
@@ -323,5 +439,19 @@ SUBCHECKS = [
     SubCheck("generated_histories", check_history, strategy=history_cases, nontrivial=_nt, classes=_classes, quick=96, thorough=4000,
              shards_quick=16, shards_thorough=64, setup=_setup,
              rule="the same invariants over histories drawn as lists (length 1..50) so that every history is a plain replayable value"),
+]
+SUBCHECKS += [
+    SubCheck("owned_schedules", check_schedules, strategy=_schedule_cases(60), nontrivial=lambda c: True, classes=_classes_sched,
+             quick=96, thorough=2400, shards_quick=8, shards_thorough=48, setup=_setup,
+             rule="2..3 calls (a family of one entry point sharing part of its arguments / two arbitrary calls / the same call twice) run in "
+                  "one thread each under a schedule the harness owns (sys.monitoring LINE events of the library's files: a thread "
+                  "loses the baton only where the plan says): alternation after every 1, 2, 3, 7 library lines, and every call pre-empted "
+                  "once (and twice) at a stratified sample of its library lines - about 60 schedules per case; each result bit-identical "
+                  "to a process that made no other call; constants, write barrier and arguments as in the other sub-checks"),
+    SubCheck("owned_schedules_complete", check_schedules, strategy=_schedule_cases(1500), nontrivial=lambda c: True, classes=_classes_sched,
+             quick=24, thorough=960, shards_quick=6, shards_thorough=48, setup=_setup,
+             rule="the same with up to 1500 schedules per case: EVERY single pre-emption point of every call whose solo run takes fewer "
+                  "library lines than that (pre-emption-bounded enumeration, bound 1, complete per case at library-line granularity; "
+                  "class 'every pre-emption point'), a stratified sample otherwise, plus a sample of double pre-emptions"),
 ]
 SUBCHECKS[0].custom = run_machine
